@@ -142,6 +142,7 @@ class RepoInterp:
         self.cur_fi = fi
         self.forked: List[str] = []
         self.interp = _OracleInterp(self)
+        self.interp.on_with = self.on_with  # type: ignore[attr-defined]
 
     # ---- hooks ---------------------------------------------------------------
     def on_name(self, name: str, st: State) -> Optional[V]:
@@ -497,9 +498,12 @@ class RepoInterp:
             except Exception:
                 return None
         # ---- NamedTuple classes of the package (always modelled: they are plain data) -------------------
-        if isinstance(call.func, (ast.Name, ast.Attribute)) and not isinstance(fval, (R, Ref)):
+        if isinstance(call.func, (ast.Name, ast.Attribute)) and not isinstance(fval, (R, Ref, K)):
             dn = dotted(call.func) or ""
             ci_nt = self.repo.resolve_class(self.cur_fi.module, dn) if dn else None
+            if ci_nt is None and isinstance(fval, S) and fval.name.startswith("class:"):
+                mn_c, _, cn_c = fval.name[len("class:"):].rpartition(".")
+                ci_nt = self.repo.cls(mn_c, cn_c, required=False)  # cls(...) inside a classmethod
             if ci_nt is not None and self._nt_fields(ci_nt) is not None:
                 names, defaults = self._nt_fields(ci_nt)  # type: ignore[misc]
                 vals: Dict[str, V] = {}
@@ -539,24 +543,30 @@ class RepoInterp:
                 m_c = self.repo.method(ci_c, meth)
                 if m_c is not None:
                     return self.inline_call(m_c, call, S("class:" + ci_c.fq), args, kwargs, st)
-        if self.construct_instances and isinstance(call.func, ast.Name) and not isinstance(fval, (R, Ref)):
+        # private helper classes of the package (class _Builder: ...) are plain data + methods: always modelled
+        priv_cls = None
+        if isinstance(call.func, ast.Name) and call.func.id.startswith("_") and not isinstance(fval, (R, Ref)) and self.heap:
+            priv_cls = self.repo.resolve_class(self.cur_fi.module, call.func.id)
+            if priv_cls is not None and (self._nt_fields(priv_cls) is not None or priv_cls.bases and any(b.split(".")[-1] not in ("object",) for b in priv_cls.bases)):
+                priv_cls = None  # only base-less private classes
+        if (self.construct_instances or priv_cls is not None) and isinstance(call.func, ast.Name) and not isinstance(fval, (R, Ref)):
             ci_new = self.repo.resolve_class(self.cur_fi.module, call.func.id)
             if ci_new is not None and self.repo.method(ci_new, "__init__") is None:
                 return st.alloc("obj", {"__class__": K(ci_new.fq)})  # no __init__ in the package: a bare instance
-        if self.construct_instances and isinstance(call.func, (ast.Name, ast.Attribute)):
+        if (self.construct_instances or priv_cls is not None) and isinstance(call.func, (ast.Name, ast.Attribute)):
             callee0 = self.resolve(call, fval)
             if callee0 is not None and callee0.cls is not None and callee0.qualname.endswith(".__init__") and not isinstance(fval, (R, Ref)) \
                     and dotted(call.func) is not None and dotted(call.func).split(".")[-1] == callee0.cls.name.split(".")[-1]:
                 obj = st.alloc("obj", {"__class__": K(callee0.cls.fq)})
                 self.inline_call(callee0, call, obj, args, kwargs, st)
                 return obj
-        if self.dispatch_instances and meth is not None and isinstance(fval, Ref) and fval.kind == "obj":
+        if meth is not None and isinstance(fval, Ref) and fval.kind == "obj":
             cfq = st.deref(fval).get("__class__")
             if isinstance(cfq, K):
                 mn, _, cn = cfq.v.rpartition(".")
                 ci0 = self.repo.cls(mn, cn, required=False)
                 m0 = self.repo.method(ci0, meth) if ci0 is not None else None
-                if m0 is not None and m0.fq in self.inline:
+                if m0 is not None and (cn.startswith("_") or (self.dispatch_instances and m0.fq in self.inline)):
                     saved0 = self.self_class
                     self.self_class = ci0
                     try:
@@ -647,9 +657,77 @@ class RepoInterp:
             return v
         return self._inline_call(callee, call, fval, args, kwargs, st)
 
-    def _inline_call(self, callee: FunctionInfo, call: ast.Call, fval: Optional[V], args: List[V], kwargs: Dict[str, V], st: State) -> V:
+    CM_DECORATORS = ("contextmanager", "contextlib.contextmanager")
+
+    def _is_generator(self, fi: FunctionInfo) -> bool:
+        return any(isinstance(x, (ast.Yield, ast.YieldFrom)) for x in walk_no_nested(fi.node))
+
+    def on_with(self, cm: R, target: Optional[ast.AST], body: List[ast.stmt], st: State) -> List[State]:
+        """`with <package @contextmanager>(...) [as target]: body` - the generator is interpreted; at its yield the body of
+        the with statement runs in the caller's state; an exception of the body is raised at the yield, so the
+        generator's own try/except/finally decide what happens to it."""
+        fq = cm.fields["callee"].v
+        callee = next((f for f in self.repo.all_functions() if f.fq == fq), None)
+        if callee is None:
+            raise AnalysisError(f"context manager {fq} not found")
+        it = self.interp
+        outer: Dict[str, Any] = {"st": st, "term": None, "ran": 0}
+        saved_handler = getattr(it, "yield_handler", None)
+
+        def handler(v: V, gs: State) -> None:
+            it.yield_handler = saved_handler
+            try:
+                cs = outer["st"]
+                outer["ran"] += 1
+                if target is not None:
+                    it._assign(target, v, cs)
+                outs = it.run(body, cs)
+                if len(outs) != 1:
+                    raise AnalysisError(f"the body of `with {callee.qualname}(...)` has {len(outs)} outcomes; only single-outcome bodies are modelled")
+                o = outs[0]
+                outer["st"] = o
+                if o.term is not None and o.term[0] == "raise":
+                    gs.pending = str(o.term[1])  # raised at the yield
+                    o.term = None
+                elif o.term is not None:
+                    outer["term"] = o.term  # return / break / continue inside the with body: re-applied after cleanup
+                    o.term = None
+            finally:
+                it.yield_handler = handler
+
+        it.yield_handler = handler
+        try:
+            a_v = list(cm.fields["args"].v)
+            kw_v = dict(cm.fields["kwargs"].v)
+            self_v = cm.fields["self"] if cm.fields["self"] != K("<none>") else None
+            fake = ast.Call(func=ast.Name(id=callee.qualname.split(".")[-1], ctx=ast.Load()), args=[], keywords=[])
+            # run the generator body like an inlined call, sharing heap and effects with the caller
+            gen_result = self._inline_call(callee, fake, self_v, a_v, kw_v, outer["st"], generator_ok=True)
+        finally:
+            it.yield_handler = saved_handler
+        cs = outer["st"]
+        if outer["ran"] != 1 and cs.pending is None:
+            raise AnalysisError(f"context manager {callee.qualname} yielded {outer['ran']} times")
+        if cs.pending is not None:
+            return [cs]  # the exception left the context manager
+        if outer["term"] is not None:
+            cs.term = outer["term"]
+        return [cs]
+
+    def _inline_call(self, callee: FunctionInfo, call: ast.Call, fval: Optional[V], args: List[V], kwargs: Dict[str, V], st: State, generator_ok: bool = False) -> V:
         if self.depth >= self.max_depth:
             return U("inline depth")
+        if not generator_ok and self.heap and any(d.split("(")[0] in self.CM_DECORATORS for d in callee.decorators()) and self._is_generator(callee):
+            return R("ctxmgr", callee=K(callee.fq), self=fval if fval is not None else K("<none>"), args=K(tuple(args)), kwargs=K(tuple(sorted(kwargs.items()))))
+        if not generator_ok and self.heap and self._is_generator(callee):
+            # a generator function: interpreted eagerly, the values it yields become the sequence the caller iterates
+            mark = len(st.effects)
+            self._inline_call(callee, call, fval, args, kwargs, st, generator_ok=True)
+            ys = [e[1] for e in st.effects[mark:] if e[0] == "yield"]
+            if any(e[0] == "yield-from" for e in st.effects[mark:]):
+                return U("generator with yield from")
+            st.effects[mark:] = [e for e in st.effects[mark:] if e[0] != "yield"]
+            return K(tuple(ys))
         a = callee.node.args  # type: ignore[attr-defined]
         params = [x.arg for x in a.posonlyargs + a.args]
         sub = State()
